@@ -1731,6 +1731,63 @@ def localise_histories(ctx, corr):
             corr.failures.append(f)      # not reproducible from the log: let another failure of the stream speak first
 
 
+GEOM_SPELLING_CORPUS = [
+    # (symbols, flat coordinates); Molecule(symbols=['He','He'], geometry=((0,0,0),(0,0,1.5))) raised a bare AttributeError
+    # before /repo c48482c (finding C04-tuple-geometry-attributeerror): a regression is reported by this stream
+    (["He", "He"], [0.0, 0.0, 0.0, 0.0, 0.0, 1.5]),
+    (["O", "H", "H"], [0.0, 0.0, -0.125, 0.0, -1.5, 1.0, 0.0, 1.5, 1.0]),
+    (["Ne"], [0.25, -0.5, 4.0]),
+]
+
+
+def geometry_spellings(flat):
+    import numpy as np
+    nat = len(flat) // 3
+    rows = [flat[3 * i:3 * i + 3] for i in range(nat)]
+    a = np.array(flat, dtype=float)
+    return [("flat list", list(flat)), ("nested lists", [list(r) for r in rows]), ("flat tuple", tuple(flat)),
+            ("nested tuples", tuple(tuple(r) for r in rows)), ("list of tuples", [tuple(r) for r in rows]),
+            ("ndarray flat", a.copy()), ("ndarray (nat,3)", a.reshape(nat, 3).copy()), ("ndarray Fortran", np.asfortranarray(a.reshape(nat, 3))),
+            ("ndarray strided", np.repeat(a, 2)[::2]), ("ndarray >f8", a.astype(">f8"))]
+
+
+def molecule_geometry_spellings(ctx, corr):
+    """Every legal spelling of the coordinates (lists, tuples, nested, arrays of any layout) must build the same validated
+    molecule through Molecule(...) and through from_schema (implementation only; judged against the flat-list spelling)."""
+    import numpy as np
+    from qcelemental.models import Molecule
+    from qcelemental.molparse import from_schema
+    for syms, flat in GEOM_SPELLING_CORPUS:
+        ref = None
+        for name, g in geometry_spellings(flat):
+            corr.count("geometry_spelling")
+            corr.hit("geometry_spelling: " + name)
+            case = {"input": {"symbols": syms, "geometry": flat, "spelling": name}}
+            for route in ("Molecule", "from_schema"):
+                try:
+                    with contextlib.redirect_stdout(io.StringIO()):
+                        if route == "Molecule":
+                            m = Molecule(symbols=syms, geometry=g)
+                            got = (m.get_hash(), np.asarray(m.geometry, dtype=float).reshape(-1).tolist(), [np.asarray(f).tolist() for f in m.fragments])
+                        else:
+                            r = from_schema({"schema_name": "qcschema_molecule", "schema_version": 2, "symbols": syms, "geometry": g}, verbose=0)
+                            got = (None, np.asarray(r["geom"], dtype=float).reshape(-1).tolist(), [int(x) for x in r["fragment_separators"]])
+                except Exception as e:
+                    corr.failures.append({"stream": "geometry_spelling", "case": dict(case, route=route),
+                                          "what": f"{route} raised {type(e).__name__} for a legal spelling of the coordinates ({name}): {e}"[:300],
+                                          "observed": repr(e)[:200]})
+                    continue
+                key = (route,)
+                if ref is None:
+                    ref = {}
+                if key not in ref:
+                    ref[key] = got
+                elif got != ref[key]:
+                    corr.failures.append({"stream": "geometry_spelling", "case": dict(case, route=route),
+                                          "what": f"{route} builds a different molecule from the {name} spelling than from the flat list",
+                                          "observed": str(got)[:300]})
+
+
 def correspond(ctx):
     T = c06.table(ctx)
     corr = Corr()
@@ -1860,6 +1917,7 @@ def correspond(ctx):
         stream, c, out = meta[b]
         got, _ = coqrun.eval_terms("C04", REQ, "", [f"from_arrays {raw_term(c)}"])
         corr.disagreements.append({"stream": stream, "case": {"input": public(c)}, "impl": out, "model": got})
+    molecule_geometry_spellings(ctx, corr)
     if corr.failures:
         localise_histories(ctx, corr)
     corr.exhaustive = False
@@ -1919,6 +1977,16 @@ def replay(ctx, rp):
         out, bad, where = judge_schema(T, sc)
         return {"schema": sc, "implementation": out, "oracle": bad, "entry_point": where, "fails": bool(bad)}
     c = rp["case"]["input"]
+    if rp.get("stream") == "geometry_spelling" or (isinstance(c, dict) and "spelling" in c and "symbols" in c):
+        sub = Corr()
+        saved = list(GEOM_SPELLING_CORPUS)
+        try:
+            GEOM_SPELLING_CORPUS[:] = [(list(c["symbols"]), [float(x) for x in c["geometry"]])]
+            molecule_geometry_spellings(ctx, sub)
+        finally:
+            GEOM_SPELLING_CORPUS[:] = saved
+        mine = [f for f in sub.failures if f["case"]["input"].get("spelling") == c["spelling"]] or sub.failures
+        return {"input": c, "oracle": mine[0]["what"] if mine else None, "fails": bool(mine)}
     if c.get("conn") is not None:
         c["conn"] = [tuple(t) for t in c["conn"]]
     if "spelling" in rp["case"]:
